@@ -4,8 +4,11 @@
 // Line protocol (all names hex encoded, "-" = empty string, lists comma separated, "_" = empty list):
 //
 //	sb <comp> <rootRel> <variant> <cwdRel>   first line of every case: component (fst|ds|upd|lib), position of the root
-//	                                         inside the sandbox, variant (plain|slash|noexist), working directory
-//	put|get|del|qry <key>                    fstree Put / Get / Delete / Query(prefix)
+//	                                         inside the sandbox, variant (plain|slash|noexist; upd also nested:
+//	                                         the storage dir is a child node of a DirStructure rooted at its parent), working directory
+//	put|get|gmt|del|qry <key>                fstree Put / Get / GetMeta / Delete / Query(prefix)
+//	fss <state>                              fstree: what stands at the root's place from now on, behind the back of the open database
+//	                                         (plain|rmroot|rootfile|rmd|dfile|extra|bad|empty)
 //	ens <r|c|g> <path> | enr <r|c|g> <rel> | end <r|c|g> <names>   DirStructure.EnsureAbsPath / EnsureRelPath / EnsureRelDir
 //	                                         called on the root structure, its child or its grandchild
 //	chd <h> <name> <perm> | hens <h> | hena <h> <path> | henr <h> <rel> | hend <h> <names>
@@ -323,7 +326,12 @@ func (e *exec) restoreInside() {
 			must(os.WriteFile(filepath.Join(root, f), []byte("IN:"+f), 0o644))
 		}
 		must(os.MkdirAll(filepath.Join(root, "tmp"), 0o700))
-		e.ds = utils.NewDirStructure(e.rootGiven, 0o755)
+		if e.variant == "nested" {
+			// the storage dir is a child of a bigger structure (dataroot.ChildDir("updates", perm)), as applications set it up
+			e.ds = utils.NewDirStructure(filepath.Dir(root), 0o755).ChildDir(filepath.Base(root), 0o755)
+		} else {
+			e.ds = utils.NewDirStructure(e.rootGiven, 0o755)
+		}
 	}
 }
 
@@ -400,6 +408,10 @@ func (e *exec) Do(line string) string {
 		}
 		switch f[3] {
 		case "plain", "slash", "noexist":
+		case "nested":
+			if f[1] != "upd" {
+				return "bad-op"
+			}
 		default:
 			return "bad-op"
 		}
@@ -513,7 +525,7 @@ type finishFn func() (decision string, restoreInside bool)
 func (e *exec) prepare(f []string) (call func(), finish finishFn) {
 	s := e.sb
 	switch {
-	case e.comp == "fst" && len(f) == 2 && (f[0] == "put" || f[0] == "get" || f[0] == "del" || f[0] == "qry"):
+	case e.comp == "fst" && len(f) == 2 && (f[0] == "put" || f[0] == "get" || f[0] == "gmt" || f[0] == "del" || f[0] == "qry"):
 		key, ok := unhx(f[1])
 		if !ok {
 			return nil, nil
@@ -664,6 +676,26 @@ func (e *exec) prepFst(op, key string) (func(), finishFn) {
 				return "acc data " + hx(d[8:]), false
 			}
 			return "acc data " + hx("?"+d), false
+		}
+	case "gmt":
+		var m *record.Meta
+		mg, ok := e.fst.(interface {
+			GetMeta(key string) (*record.Meta, error)
+		})
+		if !ok {
+			return nil, nil
+		}
+		return func() { m, err = mg.GetMeta(key) }, func() (string, bool) {
+			if err != nil {
+				if err == storage.ErrNotFound {
+					return "acc notfound", false
+				}
+				return classify(err), false
+			}
+			if m == nil {
+				return "acc oserr", false
+			}
+			return "acc meta", false
 		}
 	case "del":
 		before := e.listAll()
